@@ -148,5 +148,5 @@ Key(m, g, ev) ==
     [] OTHER -> "other"
 \* monitors whose failure leaves the ghost state in step with the code (the refused call changed nothing)
 NonFatal == {"X02_chief_manages", "X02_operator_accepted"}
-========================================================================Failing(g, ev) == {m \in Monitors : ~Holds(m, g, ev)}
-=====
+Failing(g, ev) == {m \in Monitors : ~Holds(m, g, ev)}
+=============================================================================
